@@ -99,13 +99,13 @@ func checkReload(c reloadCase) (o pbt.Outcome) {
 	env, err := routefix.Setup("c21r", specs, []routefix.User{{Key: "u", RWFlag: flag, RWSplit: split}},
 		func(ns *models.Namespace) { ns.SupportMultiQuery = true })
 	if err != nil {
-		o.Skip = "fixture: " + err.Error()
+		o.Skip = "fixture could not be set up (inconclusive)"
 		return
 	}
 	defer env.Close()
 	cl, err := env.Dial("u", "db", rawclient.ClientMultiStatements)
 	if err != nil {
-		o.Skip = "dial: " + err.Error()
+		o.Skip = "client could not connect to the proxy (inconclusive)"
 		return
 	}
 	defer cl.Close()
@@ -117,7 +117,7 @@ func checkReload(c reloadCase) (o pbt.Outcome) {
 		if s.Op == rOpStmt && s.Delivery%4 == rdPreparedEarly {
 			st, perr, err := cl.Prepare(s.text(i))
 			if err != nil {
-				o.Skip = "session broke in early prepare: " + err.Error()
+				o.Skip = "transport error towards the proxy (inconclusive)"
 				return
 			}
 			if perr == nil {
@@ -140,7 +140,7 @@ func checkReload(c reloadCase) (o pbt.Outcome) {
 				}
 			}
 			if err := env.P.Install(env.NS); err != nil {
-				o.Skip = "reload: " + err.Error()
+				o.Skip = "namespace reload failed (inconclusive)"
 				return
 			}
 			reloads++
@@ -156,14 +156,14 @@ func checkReload(c reloadCase) (o pbt.Outcome) {
 		case rdQuery:
 			r, err := cl.Exec(text)
 			if err != nil {
-				o.Skip = "session broke: " + err.Error()
+				o.Skip = "transport error towards the proxy (inconclusive)"
 				return
 			}
 			clientErr = r.Err
 		case rdMulti:
 			rs, err := cl.Query("select * from t_ok_a;" + text + ";select * from t_ok_b")
 			if err != nil {
-				o.Skip = "session broke: " + err.Error()
+				o.Skip = "transport error towards the proxy (inconclusive)"
 				return
 			}
 			for _, r := range rs {
@@ -177,7 +177,7 @@ func checkReload(c reloadCase) (o pbt.Outcome) {
 				var perr *rawclient.Error
 				st, perr, err = cl.Prepare(text)
 				if err != nil {
-					o.Skip = "session broke in prepare: " + err.Error()
+					o.Skip = "transport error towards the proxy (inconclusive)"
 					return
 				}
 				clientErr = perr
@@ -185,11 +185,15 @@ func checkReload(c reloadCase) (o pbt.Outcome) {
 			if clientErr == nil {
 				r, err := cl.Execute(st, nil)
 				if err != nil {
-					o.Skip = "session broke in execute: " + err.Error()
+					o.Skip = "transport error towards the proxy (inconclusive)"
 					return
 				}
 				clientErr = r.Err
 			}
+		}
+		if clientErr != nil && routefix.InfraTrouble(clientErr.Message) {
+			o.Skip = "the proxy reported backend connection trouble (inconclusive)"
+			return
 		}
 		var hits []fakemysql.Event
 		for _, ev := range env.Cl.Events() {
@@ -225,7 +229,9 @@ func checkReload(c reloadCase) (o pbt.Outcome) {
 		}
 		switch {
 		case !mod:
-			if clientErr != nil {
+			if clientErr != nil && !ruleError(clientErr) {
+				o.Labels = append(o.Labels, "control_failed_for_another_reason")
+			} else if clientErr != nil {
 				fail(fmt.Sprintf("%s: non-modifying statement %q was rejected: %v", where, text, clientErr), "")
 			}
 		case ro:
@@ -244,8 +250,10 @@ func checkReload(c reloadCase) (o pbt.Outcome) {
 				fail(fmt.Sprintf("%s: %q must be rejected before any backend, but %s", where, text, strings.Join(problems, " and ")), id)
 			}
 		default: // read-write in force: the read-only rule must not apply (any more)
-			if clientErr != nil {
-				fail(fmt.Sprintf("%s: %q was rejected although the user may write: %v", where, text, clientErr), "")
+			if clientErr != nil && !ruleError(clientErr) {
+				o.Labels = append(o.Labels, "write_failed_for_another_reason")
+			} else if clientErr != nil {
+				fail(fmt.Sprintf("%s: %q was rejected by the read-only rule although the user may write: %v", where, text, clientErr), "")
 			} else if len(hits) == 0 {
 				o.Labels = append(o.Labels, "rw_unobserved")
 			} else {
